@@ -46,6 +46,10 @@ def streams(tier, rng, P, only=None, cases=None):
             # (also after declarations without an initial value: they leave nothing behind that a later call could pick up)
             pre = rng.choice(["", "l8 ", "o4 v80 ", "INT NQ ", "STR XQ l8 ", "ARRAY AQ; ", "Int NQ; Str XQ; "])
             raw.append(dict(define=define, call=call, site=site, pre=pre, body=body, args=args))
+        # a nested block that begins with an octave-once mark (`{"d e}4`: a tuplet, not a string): the body ends at its own brace
+        for body in ['c {"d e}4 ', 'Sub{ c {"e}8 } g', '{`c d}2 e', 'l8 [2 {"g a}4 ] c']:
+            raw.append(dict(define="#A={%s}" % body, call="#A", site="%s f", pre="", body=body, args=[]))
+            raw.append(dict(define="STR STRV={%s};" % body, call="STRV", site="%s f", pre="l8 ", body=body, args=[]))
         for i in range(n // 10):
             # texts that begin and end with the octave-once marks `"` / `` ` `` (MML commands, not quotation marks): as a whole argument and as
             # a whole string-variable body
@@ -86,7 +90,9 @@ def streams(tier, rng, P, only=None, cases=None):
             cs.append(dict(req="compile2 %s %s" % (hx(a), hx(b)), src=a, src2=b, show="%s   vs   %s" % (a[:160], b[:160]), key="m%d" % i))
         for j, (a, b) in enumerate([("OctaveUnison{cde} f", "Sub{> cde <} cde f"), ("Unison5th{cde} f", "Sub{ Key=7 cde Key=0 } cde f"),
                                     ("Unison3th{c d} f", "Sub{ Key=4 c d Key=0 } c d f"), ("Unison{cde},7 f", "Sub{ Key=7 cde Key=0 } cde f"),
-                                    ("#A={o#?1} #A(0) c", "o0 c"), ("STR BBB={o0 #?1 #?2 #?3} BBB({c},{d},{e})", "o0 c d e")]):
+                                    ("#A={o#?1} #A(0) c", "o0 c"), ("STR BBB={o0 #?1 #?2 #?3} BBB({c},{d},{e})", "o0 c d e"),
+                                    # a nested block that begins with an octave-once mark (`{"d e}4` is a tuplet, not a string): the body ends at its own brace
+                                    ('#A={c {"d e}4 } #A f', 'c {"d e}4  f'), ('STR AQ={c {"d e}4 } AQ f', 'c {"d e}4  f'), ('#A={Sub{ c {`e}8 } g} l8 #A f', 'l8 Sub{ c {`e}8 } g f')]):
             cs.append(dict(req="compile2 %s %s" % (hx(a), hx(b)), src=a, src2=b, show="%s   vs   %s" % (a, b), key="builtin%d" % j))
         return cs
     def judge(c, impl, m):
